@@ -24,12 +24,13 @@ def main(chk):
   class Body(nn.Module):
     scol: str = 'st'
     vm: bool = False
+    bwrite: bool = False      # broadcast state: the body overwrites it with a loop-invariant value (write-only)
 
     @nn.compact
     def __call__(self, c, x):
       w = self.param('w', param_init)
       cnt = self.variable(self.scol, 'cnt', lambda: jnp.full((3,), 10, jnp.int32))
-      cnt.value = cnt.value + 1
+      cnt.value = jnp.full((3,), 20, jnp.int32) if self.bwrite else cnt.value + 1
       k = jnp.asarray(jax.random.key_data(self.make_rng('drop')), jnp.uint32).reshape(-1)[:2]
       c2 = 2 * c + x[0] + cnt.value[0]
       y = jnp.zeros((3,), jnp.int32) + c2 + 100 * x[0]
@@ -37,6 +38,9 @@ def main(chk):
 
   class BodyV(Body):
     vm: bool = True
+
+  class BodyB(Body):
+    bwrite: bool = True
 
   def ax_of(role, ax):
     return ax if role == 'axis' else None
@@ -49,8 +53,9 @@ def main(chk):
       variable_axes['st'] = cfg['sax']
     split = {'params': cfg['splitp'], 'drop': cfg['splitd']}
     if mode == 'scan':
-      return nn.scan(Body, variable_axes=variable_axes,
-                     variable_broadcast=('params' if cfg['prole'] == 'broadcast' else False),
+      return nn.scan(BodyB if cfg['srole'] == 'broadcast' else Body, variable_axes=variable_axes,
+                     variable_broadcast=[c for c, r in (('params', cfg['prole']), ('st', cfg['srole'])) if r == 'broadcast'] or False,
+                     check_constancy_invariants=cfg.get('cci', True),
                      variable_carry=('st' if cfg['srole'] == 'carry' else False),
                      split_rngs=split, in_axes=cfg['xax'], out_axes=cfg['yax'], length=cfg['n'], reverse=cfg['rev'],
                      unroll=cfg['unroll'])
@@ -74,21 +79,25 @@ def main(chk):
     n = cfg['n']
     xs = np.stack([np.full((3,), i + 1, np.int32) for i in range(n)], axis=cfg['xax'])
     sig = f"{mode}:n={n}:rev={cfg['rev']}:unroll={cfg['unroll']}:params={cfg['prole']}@{cfg['pax']}:st={cfg['srole']}@{cfg['sax']}" \
-          f":in={cfg['xax']}:out={cfg['yax']}:split={int(cfg['splitp'])}{int(cfg['splitd'])}:{cfg['phase']}"
+          f":in={cfg['xax']}:out={cfg['yax']}:split={int(cfg['splitp'])}{int(cfg['splitd'])}:{cfg['phase']}" + ('' if cfg.get('cci', True) else ':cci=False')
     key = 'C06:' + sig
     rngs = {'params': jax.random.key(3), 'drop': jax.random.key(4)}
     try:
       mdl = build(cfg, mode)()
       c0 = jnp.asarray(1, jnp.int32)
-      if mode == 'scan' and cfg['srole'] == 'carry':
+      if mode == 'scan' and cfg['srole'] == 'broadcast':
+        # a broadcast state collection that already holds the variable (11) and is overwritten by the body with a loop-invariant value
+        _, variables = build(dict(cfg, srole='axis', cci=True), mode)().init_with_output(rngs, c0, jnp.asarray(xs))
+        variables = {'params': variables['params'], 'st': {'cnt': jnp.full((3,), 11, jnp.int32)}}
+      elif mode == 'scan' and cfg['srole'] == 'carry':
         # a carried collection must exist before the loop: parameters from the same configuration with per-iteration state,
         # the carried counter holds the value one earlier call would have left (11)
-        _, variables = build(dict(cfg, srole='axis'), mode)().init_with_output(rngs, c0, jnp.asarray(xs))
+        _, variables = build(dict(cfg, srole='axis', cci=True), mode)().init_with_output(rngs, c0, jnp.asarray(xs))
         variables = {'params': variables['params'], 'st': {'cnt': jnp.full((3,), 11, jnp.int32)}}
       elif cfg['srole'] == 'out':
-        _, variables = build(dict(cfg, srole='axis'), mode)().init_with_output(rngs, c0, jnp.asarray(xs))
+        _, variables = build(dict(cfg, srole='axis', cci=True), mode)().init_with_output(rngs, c0, jnp.asarray(xs))
       else:
-        (cout, outs), variables = mdl.init_with_output(rngs, c0, jnp.asarray(xs))
+        (cout, outs), variables = build(dict(cfg, cci=True), mode)().init_with_output(rngs, c0, jnp.asarray(xs))
       if cfg['srole'] == 'out':
         variables = {'params': variables['params']}      # the state collection is produced by the mapped call
       if cfg['phase'] == 'apply':
